@@ -175,7 +175,7 @@ let spec_step (v : Zar.t array) (t : string array) : string * int =
   | Pan c -> ("p" ^ c, -1)
 
 (* translation of a harness step into operations of the Coq machine (slots 4 and 5 are temporaries) *)
-let model_ops (v : Zar.t array) (t : string array) : op list option =
+let model_ops1 (v : Zar.t array) (t : string array) : op list option =
   let s i = usz t.(i) in
   let n i = nat_of_int (s i) in
   let tmp = nat_of_int 4 in
@@ -241,6 +241,56 @@ let model_ops (v : Zar.t array) (t : string array) : op list option =
       if Zar.leq (Zar.abs v.(s 4)) Zar.one then Some [] else Some [ ODivisor (n 2, n 4) ]
   | _ -> None
 
+(* round 3: steps of the extended machine (Model.op2); everything else is wrapped with O1 *)
+let model_ops (v : Zar.t array) (t : string array) : op2 list option =
+  let s i = usz t.(i) in
+  let n i = nat_of_int (s i) in
+  let tmp = nat_of_int 4 in
+  let nonneg l = List.for_all (fun i -> Zar.sign v.(i) >= 0) l in
+  let o1 l = List.map (fun o -> O1 o) l in
+  let nbits x = Zar.numbits (Zar.abs x) in
+  let ctor_of_bytes d x nbytes =
+    (* UBig::from_le_bytes / from_be_bytes of nbytes bytes holding |x| *)
+    if nbytes <= 16 then [ OCtor (d, CDword (sg x, Zar.abs x)) ]
+    else let nw = (nbytes - 1) / 8 + 1 in
+         let ws = words_of x in
+         [ OCtor (d, CWords (sg x, ws @ zeros (nw - List.length ws))) ] in
+  match t.(0) with
+  | "pow" -> Some [ OPow (n 1, n 2, zi (s 3)) ]
+  | "sqr" -> if nonneg [ s 2 ] then Some [ OSqr (n 1, n 2) ] else Some []
+  | "ugcd" ->
+      if not (nonneg [ s 3; s 4 ]) then Some []
+      else
+        let d = n 2 and a = s 3 and b = s 4 in
+        let na = nat_of_int a and nb = nat_of_int b in
+        Some (match t.(1) with
+          | "vv" | "av" -> if a <> b then [ OGcd (d, ByVal na, ByVal nb) ] else [ O1 (OClone (tmp, ByRef na)); OGcd (d, ByVal na, ByVal tmp) ]
+          | "vr" | "ar" -> if a <> b then [ OGcd (d, ByVal na, ByRef nb) ] else [ O1 (OClone (tmp, ByRef na)); OGcd (d, ByVal na, ByRef tmp); O1 (ODrop tmp) ]
+          | "rv" -> if a <> b then [ OGcd (d, ByRef na, ByVal nb) ] else [ O1 (OClone (tmp, ByRef nb)); OGcd (d, ByRef tmp, ByVal nb); O1 (ODrop tmp) ]
+          | _ -> [ OGcd (d, ByRef na, ByRef nb) ])
+  | "udivrem" ->
+      if s 1 = s 2 || not (nonneg [ s 3; s 4 ]) then Some [] else Some [ ODivRem (n 1, n 2, n 3, n 4) ]
+  | "npow2" -> if nonneg [ s 1 ] then Some [ ONextPow2 (n 1) ] else Some []
+  | "chb" -> if nonneg [ s 1 ] then Some [ OClearHigh (n 1, zi (s 2)) ] else Some []
+  | "split" -> if s 1 = s 2 || not (nonneg [ s 3 ]) then Some [] else Some [ OSplit (n 1, n 2, n 3, zi (s 4)) ]
+  | "ishl" | "ishr" ->
+      (* IBig shifts of a non-negative value are the shifts of its magnitude *)
+      if not (nonneg [ s 3 ]) then None
+      else let a = if t.(1) = "v" then ByVal (n 3) else ByRef (n 3) in
+           Some (o1 [ (if t.(0) = "ishl" then OShl (n 2, a, zi (s 4)) else OShr (n 2, a, zi (s 4))) ])
+  | "rt" ->
+      (* round trips through the conversions: the slot is taken, converted and rebuilt *)
+      let d = s 1 in let x = v.(d) in
+      (match t.(2) with
+       | "parts" -> Some []
+       | "words" -> Some (o1 [ OCtor (tmp, CWords (sg x, words_of x)); OMove (n 1, tmp) ])
+       | "ule" | "ube" -> Some (o1 (ctor_of_bytes tmp x ((nbits x + 7) / 8) @ [ OMove (n 1, tmp) ]))
+       | "ubig" -> if Zar.sign x < 0 then Some [] else Some (o1 [ OClone (tmp, ByRef (n 1)); OMove (n 1, tmp) ])
+       | "u128" -> if Zar.sign x >= 0 && nbits x <= 128 then Some (o1 [ OCtor (n 1, CDword (Positive, x)) ]) else Some []
+       | "i128" -> if nbits x <= 127 || Zar.equal x (Zar.neg (pow2 127)) then Some (o1 [ OCtor (n 1, CDword (sg x, Zar.abs x)) ]) else Some []
+       | _ -> None)
+  | _ -> (match model_ops1 v t with Some l -> Some (o1 l) | None -> None)
+
 let is_heap cap = abs cap > 2
 
 type rec_ = { outcome : string; dval : string; caps : int array; lens : int array; live : int; words : int; flags : int }
@@ -269,15 +319,16 @@ let judge op args got =
       let prev_caps = Array.make 4 1 in
       let problem = ref None in
       let bad i what = if !problem = None then problem := Some (Printf.sprintf "step %d: %s" i what) in
+      let gcd_side = ref false in
       let run_op o =
-        match step64 o !pool !mem with
+        match step2_64 !gcd_side o !pool !mem with
         | Ok ((p, _), m) -> pool := p; mem := m; true
         | _ -> false in
       let resync_all i caps =
         (* rebuild the machine from the reported layout *)
         pool := [ zero; zero; zero; zero; zero; zero ]; mem := mem0;
         Array.iteri (fun k c ->
-          if not (run_op (OInstall (nat_of_int k, sg v.(k), words_of v.(k), zi (abs c)))) then bad i (Printf.sprintf "slot %d breaks the representation invariant" k)) caps in
+          if not (run_op (O1 (OInstall (nat_of_int k, sg v.(k), words_of v.(k), zi (abs c))))) then bad i (Printf.sprintf "slot %d breaks the representation invariant" k)) caps in
       List.iteri (fun i st ->
         let t = Array.of_list st in
         if take () <> "S" then failwith "protocol";
@@ -312,10 +363,17 @@ let judge op args got =
         (match ops with
          | Some l when !problem = None ->
              incr modelled;
-             let ok = List.for_all run_op l in
-             let same = ok && (let r = ref true in
-               List.iteri (fun k r_ -> if k < 4 then
-                 (if not (Zar.equal (rvalue64 r_) v.(k)) || Zar.to_int (signed_cap r_) <> caps.(k) then r := false)) !pool; !r) in
+             let attempt side =
+               gcd_side := side;
+               let ok = List.for_all run_op l in
+               ok && (let r = ref true in
+                 List.iteri (fun k r_ -> if k < 4 then
+                   (if not (Zar.equal (rvalue64 r_) v.(k)) || Zar.to_int (signed_cap r_) <> caps.(k) then r := false)) !pool; !r) in
+             let saved_pool = !pool and saved_mem = !mem in
+             (* the side in which gcd_in_place leaves its result is an input of the machine: either side is admitted *)
+             let same = attempt false
+                        || (List.exists (function OGcd _ -> true | _ -> false) l && (pool := saved_pool; mem := saved_mem; attempt true)) in
+             gcd_side := false;
              if not same then (incr diffs; resync_all i caps)
          | _ -> if !problem = None then resync_all i caps);
         if !problem = None && (Zar.to_int (nlive !mem) <> live || Zar.to_int (nwords !mem) <> words) then
@@ -323,7 +381,8 @@ let judge op args got =
         let arith = match t.(0) with
           | "uadd" | "usub" | "umul" | "iadd" | "isub" | "imul" | "shl" | "shr" | "setbit" | "clrbit"
           | "uand" | "uor" | "uxor" | "iand" | "ior" | "ixor" | "udiv" | "urem" | "idiv" | "irem"
-          | "addp" | "subp" | "mulp" | "sadd" | "smul" -> ops <> None && ops <> Some []
+          | "addp" | "subp" | "mulp" | "sadd" | "smul"
+          | "pow" | "sqr" | "ugcd" | "udivrem" | "npow2" | "chb" | "split" | "ishl" | "ishr" -> ops <> None && ops <> Some []
           | _ -> false in
         if arith then
           for k = 0 to 3 do
